@@ -1,20 +1,27 @@
 """C12 - parsing any tag or template terminates with success or TemplateSyntaxError.
 
-Model: coq/TagParse/Model.v (parse_tag, serialize, _detailed_tag_parser, is_dynamic_expression)
+Model: coq/TagParse/Model.v (parse_tag, serialize, _detailed_tag_parser, is_dynamic_expression), coq/TagParse/Extra.v
+(iteration counters of the three scanner loops; whole-template outcome of C09's Lexer model).
 Theorems: coq/Props/C12.v
 Correspondence: parse_tag(text) on every string up to a length bound over the syntax alphabet, random longer
 strings, tags generated from the documented grammar and mutations of them: model result (normalized, AST,
-serialisation, exception class) == implementation.  Direct oracles on the implementation: exception class of
-parse_tag / Template(source) is none or TemplateSyntaxError; serialise + re-parse gives the same AST (documented
-grammar); wall time grows at most quadratically on adversarial families.
+serialisation, exception class, round trip, loop-body executions) == implementation; whole templates: model outcome
+== parse_template.  Direct oracles on the implementation: exception class of parse_tag / Template(source) /
+parse_template is none or TemplateSyntaxError; serialise + re-parse gives the same arguments for every input whose
+parsed arguments are in documented form; loop-body executions <= 5*len+4; no input of the adversarial families
+(run in a child process under a wall-clock watchdog) hangs, and wall time grows at most quadratically (x1/x2/x4).
 """
 import glob
+import itertools
 import json
 import os
+import re
+import sys
 import time
 
 import common as C
 import c12_util as U
+import c12_time as T
 from common import cN, cstr, clist
 
 DEPTH_CLASS = 100           # trigger class c12-literal-nesting-depth: bracket nesting of the input > MAX_NESTING_DEPTH
@@ -22,8 +29,13 @@ T_NEST = "c12-literal-nesting-depth"
 T_CLASS = "c12-exception-class"
 T_ROUND = "c12-serialize-reparse"
 T_TIME = "c12-time-superquadratic"
+T_HANG = "c12-hang"                     # no result within the watchdog limit on an input of a few hundred characters
+T_MEM = "c12-memory"
+T_STEPS = "c12-steps-superlinear"       # loop-body executions of parse_tag's three scanner loops > 5*len+4
 T_DYN = "c12-dynamic-expr-backtracking"
 T_SPLIT = "c12-split-contents-stopiteration"   # Django's Token.split_contents() on a `_("...` bit that never ends with `")`
+IMPORTS_X = "From DJC Require Import Lib.Base TagParse.Model TagParse.Extra."
+WATCHDOG_S = 5.0
 
 CORPUS = [
     # fixed by 66ffd57: must classify quickly now
@@ -31,9 +43,17 @@ CORPUS = [
     # fixed by d8e2fba (MAX_NESTING_DEPTH): was RecursionError in _extract_flags -> serialize for deeply nested literals
     {"kind": "template", "source": "{% component 'x' a=" + "[" * 500 + "]" * 500 + " / %}", "trigger": T_NEST},
     {"kind": "parse_serialize", "text": "a=" + "[" * 600 + "]" * 600, "trigger": T_NEST},
+    # seeded change C12a (dict nested in a dict skipped the depth check): dict-in-dict beyond the limit
+    {"kind": "parse_serialize", "text": "a=" + "{k:" * 600 + "1" + "}" * 600, "trigger": T_NEST},
+    {"kind": "parse_serialize", "text": "a=" + "{**" * 600 + "x" + "}" * 600, "trigger": T_NEST},
     # fixed by 6a8d16e: component tag_fn called Token.split_contents(), which raises StopIteration for `_("x")|filter`
     {"kind": "template", "source": "{% component 'x' a=1 _(\"b c\")|lower:'x' k=2 %}{% endcomponent %}", "trigger": T_SPLIT},
     {"kind": "template", "source": "{% component 'x' _('b')|upper / %}", "trigger": T_SPLIT},
+    # seeded change C12b (lookahead appended to the escape-aware take_until pattern): an unterminated string with k backslash
+    # escapes made `re` try 2^k tilings; runs in the watchdog child process
+    {"kind": "time", "target": "template", "text": '{% component "files" root="C:' + "\\d" * 40 + " %}", "trigger": T_HANG},
+    {"kind": "time", "target": "parse_template", "text": "{% slot '" + "\\" * 60 + " %}{% endslot %}", "trigger": T_HANG},
+    {"kind": "time", "target": "detailed", "text": '{% a "' + '\\"' * 50, "trigger": T_HANG},
     # shapes that once looked suspicious while porting (all fine): empty quote char after `_(`, `=` first, ...
     {"kind": "parse_serialize", "text": "_(", "trigger": T_CLASS},
     {"kind": "parse_serialize", "text": "a|_(", "trigger": T_CLASS},
@@ -42,6 +62,15 @@ CORPUS = [
     {"kind": "parse_serialize", "text": "[*", "trigger": T_CLASS},
     {"kind": "parse_serialize", "text": "{**", "trigger": T_CLASS},
     {"kind": "parse_serialize", "text": "a=_(xabcx)", "trigger": T_CLASS},
+    # the error paths named by the property's mechanism (KeyError on meta["expects_key"], IndexError on stack[-1], a lone
+    # filter token at the end of the input)
+    {"kind": "parse_serialize", "text": "{**x, :}", "trigger": T_CLASS},
+    {"kind": "parse_serialize", "text": "a=]", "trigger": T_CLASS},
+    {"kind": "parse_serialize", "text": "a=[]]", "trigger": T_CLASS},
+    {"kind": "parse_serialize", "text": "a=[1]}", "trigger": T_CLASS},
+    {"kind": "parse_serialize", "text": "a|", "trigger": T_CLASS},
+    {"kind": "parse_serialize", "text": "a|f:", "trigger": T_CLASS},
+    {"kind": "parse_serialize", "text": "a=[b|", "trigger": T_CLASS},
 ]
 
 
@@ -56,7 +85,7 @@ class Hang(BaseException):
 class deadline:
     hangs = 0
 
-    def __init__(self, seconds=5.0):
+    def __init__(self, seconds=WATCHDOG_S):
         self.seconds = seconds
 
     def _fire(self, *a):
@@ -77,7 +106,11 @@ class deadline:
         return False
 
 
-def classify_trigger(text):
+def classify_trigger(text, exc=None):
+    if exc == "Hang":
+        return T_HANG
+    if exc == "MemoryError":
+        return T_MEM
     return T_NEST if U.bracket_depth(text) > DEPTH_CLASS else T_CLASS
 
 
@@ -103,7 +136,7 @@ def split_contents_stops(source):
 def template_trigger(source, exc):
     if exc == "StopIteration" and split_contents_stops(source):
         return T_SPLIT
-    return classify_trigger(source)
+    return classify_trigger(source, exc)
 
 
 # ---------------------------------------------------------------------------------------------
@@ -163,6 +196,16 @@ def roundtrip(r):
     return True, ""
 
 
+def roundtrip_class(r):
+    """input class of an accepted input, decided on its parsed arguments: documented | empty-key | other"""
+    try:
+        if U.documented_ast(r["attrs"]):
+            return "documented"
+    except RecursionError:
+        return "other"
+    return "empty-key" if U.has_empty_key(r["attrs"]) else "other"
+
+
 def template_class(source):
     from django.template import Template
     try:
@@ -171,6 +214,29 @@ def template_class(source):
         return "ok"
     except BaseException as e:  # noqa
         return exc_name(e)
+
+
+ERR_STR = re.compile(r"^Unexpected end of text - unterminated (.) string$", re.S)
+ERR_TAG = "Unexpected end of text - unterminated {% tag"
+
+
+def impl_parse_template(source):
+    """-> (Coq term of type tobs or None, class name)"""
+    from django.template.exceptions import TemplateSyntaxError
+    from django_components.util.template_parser import parse_template
+    try:
+        with deadline():
+            toks = parse_template(source)
+    except TemplateSyntaxError as e:
+        m = ERR_STR.match(str(e))
+        if m:
+            return "(TErrString %s)" % cN(ord(m.group(1))), "TemplateSyntaxError"
+        if str(e) == ERR_TAG:
+            return "TErrTag", "TemplateSyntaxError"
+        return None, "TemplateSyntaxError"
+    except BaseException as e:  # noqa
+        return None, exc_name(e)
+    return "(TToks %s %s)" % (cN(len(toks)), cN(toks[-1].position[1] if toks else 0)), "ok"
 
 
 def impl_detailed(text):
@@ -185,8 +251,222 @@ def impl_detailed(text):
     return "(%s, DOk %s %s)" % (cstr(text), cstr(tok.contents), cN(tok.position[1])), "ok"
 
 
+# --- loop-body executions of the three `while` loops of parse_tag (line events of the first statement of each body) ---
+_steps_state = {}
+
+
+def _loop_lines():
+    import inspect
+    from django_components.util import tag_parser as tp
+    src, start = inspect.getsourcelines(tp.parse_tag)
+    heads = [r"^    while not is_at_end\(\):", r"^        while len\(stack\) > 0:", r"^            while not end_of_value:"]
+    out = []
+    for h in heads:
+        idx = [i for i, l in enumerate(src) if re.match(h, l)]
+        if len(idx) != 1:
+            raise C.HarnessError("parse_tag: cannot locate the loop %r (found %d)" % (h, len(idx)))
+        j = idx[0] + 1
+        while src[j].strip() == "" or src[j].strip().startswith("#"):
+            j += 1
+        out.append(start + j)
+    return out
+
+
+def impl_steps(text):
+    """(exception class or 'ok', (attribute-loop, stack-loop, parts-loop body executions))"""
+    from django_components.util import tag_parser as tp
+    if "lines" not in _steps_state:
+        _steps_state["lines"] = _loop_lines()
+    lines = _steps_state["lines"]
+    code = tp.parse_tag.__code__
+    cnt = dict.fromkeys(lines, 0)
+
+    def loc(frame, event, arg):
+        if event == "line" and frame.f_lineno in cnt:
+            cnt[frame.f_lineno] += 1
+        return loc
+
+    def glob_(frame, event, arg):
+        return loc if frame.f_code is code else None
+    old = sys.gettrace()
+    sys.settrace(glob_)
+    try:
+        try:
+            tp.parse_tag(text, None)
+            r = "ok"
+        except Exception as e:  # noqa
+            r = exc_name(e)
+    finally:
+        sys.settrace(old)
+    return r, tuple(cnt[l] for l in lines)
+
+
 # ---------------------------------------------------------------------------------------------
-# scaling (support for the cost assumption; the proof covers scanner iterations only)
+# time / hang / memory (child process with a wall-clock watchdog, see c12_time.py)
+# ---------------------------------------------------------------------------------------------
+KS = [1, 2, 3, 5, 8, 12, 16, 20, 24, 28, 32, 36, 40, 50, 60]
+TAG_SHAPES = ["{%% component 'x' %s / %%}", "{%% component 'x' %s %%}", "{%% slot %s %%}", "{%% html_attrs %s %%}", "{%% fill %s %%}",
+              "a{%% provide 'k' %s %%}b{%% endprovide %%}"]
+PUMP_ATOMS = ['"', "'", "\\", "\\\\", '\\"', "\\'", "[", "]", "{", "}", ":", ",", "|", "=", "*", "**", "...", "_(", ")", " ", "\n", "a", "k:",
+              "{{", "}}", "{%", "%}", "{#", "#}", "%", "x=", "|f", ":1", "d", "é"]
+PUMP_TPL = ["{% ", " %}", "{{ ", " }}", "{# ", " #}", "{% component 'x' ", "{% slot \"", "' ", '" ', "\\", "%", "}", "{", "\n", "a ", "verbatim ",
+            "{% endverbatim %}", "\\'", '\\"']
+
+
+def time_case_trigger(c, outcome):
+    if outcome in ("HANG", "HANG-HARD"):
+        return T_HANG
+    if outcome in ("MemoryError", "DIED"):
+        return T_MEM
+    if c["target"] in ("template", "parse_template"):
+        return template_trigger(c["text"], outcome)
+    return classify_trigger(c["text"], outcome)
+
+
+def hang_sweep(chk, thorough):
+    rng = chk.rng
+    cases = []
+    ks = KS + ([80, 120] if thorough else [])
+    for k in ks:
+        for name, fam in T.FAMILIES_TAG.items():
+            s = fam(k)
+            cases.append({"target": "parse_tag", "text": s, "family": name, "k": k})
+            shapes = TAG_SHAPES if thorough else [TAG_SHAPES[0], TAG_SHAPES[1 + (k + len(name)) % (len(TAG_SHAPES) - 1)]]
+            for sh in shapes:
+                cases.append({"target": "template", "text": sh % s, "family": name, "k": k})
+            if "unterm" in name or k in (20, 40):
+                cases.append({"target": "parse_template", "text": TAG_SHAPES[1] % s, "family": name, "k": k})
+                cases.append({"target": "detailed", "text": "{% a " + s, "family": name, "k": k})
+                cases.append({"target": "detailed", "text": "{% a " + s + " %} tail", "family": name, "k": k})
+        for name, fam in T.FAMILIES_TPL.items():
+            s = fam(k)
+            cases.append({"target": "template", "text": s, "family": name, "k": k})
+            cases.append({"target": "parse_template", "text": s, "family": name, "k": k})
+    # seeded random "pumped" inputs: prefix + piece * k + suffix
+    for _ in range(6000 if thorough else 1200):
+        pre = "".join(rng.choice(PUMP_ATOMS) for _ in range(rng.randint(0, 3)))
+        piece = "".join(rng.choice(PUMP_ATOMS) for _ in range(rng.randint(1, 3)))
+        suf = "".join(rng.choice(PUMP_ATOMS) for _ in range(rng.randint(0, 3)))
+        k = rng.choice([24, 40, 60])
+        s = pre + piece * k + suf
+        cases.append({"target": "parse_tag", "text": s, "family": "pumped", "k": k})
+        cases.append({"target": "template", "text": rng.choice(TAG_SHAPES) % s, "family": "pumped", "k": k})
+        pre = "".join(rng.choice(PUMP_TPL) for _ in range(rng.randint(0, 3)))
+        piece = "".join(rng.choice(PUMP_TPL + PUMP_ATOMS[:8]) for _ in range(rng.randint(1, 3)))
+        suf = "".join(rng.choice(PUMP_TPL) for _ in range(rng.randint(0, 3)))
+        s = pre + piece * k + suf
+        cases.append({"target": "parse_template", "text": s, "family": "pumped-template", "k": k})
+        cases.append({"target": "template", "text": s, "family": "pumped-template", "k": k})
+    res = T.run_cases(cases, limit=WATCHDOG_S, max_hangs=3)
+    slowest, max_rss, nh = (0.0, None), 0, 0
+    for c, r in zip(cases, res):
+        if r is None or r["outcome"] == "SKIPPED":
+            continue
+        o = r["outcome"]
+        chk.count(("time", c["target"], c["text"]), "\\" in c["text"] or c["k"] >= 12, kind="hang-sweep-" + c["target"])
+        if o in ("HANG", "HANG-HARD", "DIED"):
+            # confirm in a fresh child before reporting (a stalled machine is not a property violation)
+            r2 = T.run_cases([c], limit=WATCHDOG_S)[0]
+            if r2["outcome"] not in ("HANG", "HANG-HARD", "DIED"):
+                chk.extra.setdefault("unconfirmed_hangs", []).append({"text": c["text"][:200], "first": r, "second": r2})
+                r, o = r2, r2["outcome"]
+        if o in ("HANG", "HANG-HARD"):
+            nh += 1
+            chk.fail(T_HANG, "%s did not return within %.0f s on a %d-character input (family %s, k=%d)" % (c["target"], WATCHDOG_S, len(c["text"]), c["family"], c["k"]),
+                     {"kind": "time", "target": c["target"], "text": c["text"], "limit_s": WATCHDOG_S, "family": c["family"], "k": c["k"]})
+        elif o not in ("ok", "TemplateSyntaxError"):
+            chk.fail(time_case_trigger(c, o), "%s raised %s (family %s, k=%d)" % (c["target"], o, c["family"], c["k"]),
+                     {"kind": "time", "target": c["target"], "text": c["text"], "exception": o})
+        if r["rss_kb"] > 256 * 1024:
+            chk.fail(T_MEM, "%s grew the process by %d MB on a %d-character input" % (c["target"], r["rss_kb"] // 1024, len(c["text"])),
+                     {"kind": "time", "target": c["target"], "text": c["text"], "rss_kb": r["rss_kb"]})
+        if r["secs"] > slowest[0]:
+            slowest = (r["secs"], {"target": c["target"], "family": c["family"], "k": c["k"], "len": len(c["text"])})
+        max_rss = max(max_rss, r["rss_kb"])
+    chk.extra["hang_sweep"] = {"cases": len(cases), "watchdog_s": WATCHDOG_S, "hangs": nh, "slowest_s": slowest[0], "slowest_case": slowest[1],
+                               "max_rss_growth_kb": max_rss, "skipped_after_hangs": sum(1 for r in res if r and r["outcome"] == "SKIPPED")}
+
+
+def _sized(fam, n):
+    unit = max(1, len(fam(11)) - len(fam(10)))
+    return fam(max(1, n // unit))
+
+
+def _ratio_bad(ts):
+    """x4 length => at most x16 time (x2 => x4); slack 3x, 1 ms floor and 10 ms allowance against timer noise"""
+    base = max(ts[0], 0.001)
+    return ts[2] > 3 * 16 * base + 0.01 or ts[1] > 3 * 4 * base + 0.01
+
+
+def scaling(chk, thorough):
+    """wall time at n0, 2*n0, 4*n0 per (family, target); n0 chosen per family from a probe at 500 characters so that the
+    smallest run is measurable (>= ~2 ms if linear) and the largest stays below ~1.5 s if quadratic"""
+    pairs = []
+    for i, (name, fam) in enumerate(T.FAMILIES_TAG.items()):
+        pairs.append((name, "parse_tag", fam))
+        if thorough or i % 3 == chk.seed % 3 or "unterm-dq" in name:
+            pairs.append((name, "template", lambda n, fam=fam: "{% component 'x' " + fam(n) + " / %}"))
+    for name, fam in T.FAMILIES_TPL.items():
+        pairs.append((name, "parse_template", fam))
+        pairs.append((name, "template", fam))
+    limit = 20.0
+    probe = T.run_cases([{"target": tg, "text": _sized(f, 500)} for _, tg, f in pairs], limit=limit)
+    jobs = []
+    for (name, tg, f), pr in zip(pairs, probe):
+        t500 = max(pr["secs"], 2e-5)
+        want = 500 * 0.002 / t500                      # length at which a linear scanner needs 2 ms
+        cap = 500 * (1.5 / t500) ** 0.5 / 4            # length n0 at which a quadratic one needs 1.5 s for 4*n0
+        n0 = 250
+        while n0 * 2 <= min(want, cap, 16000):
+            n0 *= 2
+        jobs.append((name, tg, f, n0))
+    cases = []
+    for name, tg, f, n0 in jobs:
+        for m in (1, 2, 4):
+            cases.append({"target": tg, "text": _sized(f, n0 * m), "reps": 3 if thorough else 2})
+    # a few independent children side by side (each case is timed alone inside its child)
+    nproc = max(1, min(4, C.NCPU // 4))
+    chunks = [list(range(i, len(jobs), nproc)) for i in range(nproc)]
+    import concurrent.futures
+    res = [None] * len(cases)
+
+    def run_chunk(ix):
+        sub = [cases[3 * j + m] for j in ix for m in range(3)]
+        out = T.run_cases(sub, limit=limit, tag="sc%d" % ix[0] if ix else "sc")
+        for q, j in enumerate(ix):
+            for m in range(3):
+                res[3 * j + m] = out[3 * q + m]
+    with concurrent.futures.ThreadPoolExecutor(max_workers=nproc) as ex:
+        list(ex.map(run_chunk, [c for c in chunks if c]))
+    table = {}
+    for j, (name, tg, f, n0) in enumerate(jobs):
+        rs = res[3 * j:3 * j + 3]
+        ts = [r["secs"] for r in rs]
+        hang = [r["outcome"] for r in rs if r["outcome"] in ("HANG", "HANG-HARD", "DIED")]
+        bad = bool(hang) or _ratio_bad(ts)
+        if bad:
+            # measure again, alone, before reporting
+            again = T.run_cases([dict(cases[3 * j + m], reps=4) for m in range(3)], limit=limit)
+            ts2 = [r["secs"] for r in again]
+            hang = [r["outcome"] for r in again if r["outcome"] in ("HANG", "HANG-HARD", "DIED")]
+            chk.extra.setdefault("scaling_remeasured", []).append({"family": name, "target": tg, "first": ts, "second": ts2})
+            ts, bad = ts2, bool(hang) or _ratio_bad(ts2)
+        table["%s/%s" % (name, tg)] = {"n0": n0, "times_n_2n_4n": [round(x, 5) for x in ts]}
+        chk.count(("scaling", name, tg), True, kind="scaling")
+        for r, m in zip(rs, (1, 2, 4)):
+            if r["outcome"] not in ("ok", "TemplateSyntaxError", "HANG", "HANG-HARD", "DIED"):
+                text = cases[3 * j + (0 if m == 1 else 1 if m == 2 else 2)]["text"]
+                chk.fail(time_case_trigger({"target": tg, "text": text}, r["outcome"]), "%s raised %s on family %s at %d characters" % (tg, r["outcome"], name, len(text)),
+                         {"kind": "time", "target": tg, "text": text, "exception": r["outcome"]})
+        if bad:
+            text = cases[3 * j + 2]["text"]
+            what = ("%s did not return within %.0f s" % (tg, limit)) if hang else ("wall time of %s grows faster than quadratically" % tg)
+            chk.fail(T_TIME, "%s on family %s (lengths %d, %d, %d: %s s)" % (what, name, n0, 2 * n0, 4 * n0, [round(x, 4) for x in ts]),
+                     {"kind": "scaling", "family": name, "target": tg, "n0": n0, "times_n_2n_4n": ts,
+                      "text_n": cases[3 * j]["text"], "text_4n_len": len(text)})
+    chk.extra["scaling_times_n_2n_4n"] = table
+
+
 # ---------------------------------------------------------------------------------------------
 def _t(fn, reps=3):
     best = None
@@ -198,68 +478,6 @@ def _t(fn, reps=3):
     return best
 
 
-FAMILIES = {
-    "list-items": lambda n: "a=[" + "1, " * (n // 3) + "1]",
-    "many-attrs": lambda n: " ".join(["k=1"] * (n // 4)),
-    "many-positional": lambda n: " ".join(["v"] * (n // 2)),
-    "long-key": lambda n: "k" * n + "=1",
-    "long-string-escapes": lambda n: 'a="' + "\\\"x" * (n // 3) + '"',
-    "dynamic-string-filter": lambda n: 'a="' + "{{}}" * (n // 4) + '"|x',
-    "filter-chain": lambda n: "a" + "|f:1" * (n // 4),
-    "whitespace-run": lambda n: "a=[1," + " " * n + "2]",
-    "unterminated-quote": lambda n: 'a="' + "x " * (n // 2),
-    "dict-pairs": lambda n: "a={" + "k: 1, " * (n // 6) + "}",
-    "nested-100": lambda n: " ".join(["a=" + "[" * 100 + "]" * 100] * max(1, n // 203)),
-    "star-run": lambda n: "a=[" + "*" * n + "]",
-    "colon-run": lambda n: "a" + ":" * n,
-}
-
-
-def scaling(chk, n0):
-    from django.template import Template
-    from django_components.util.tag_parser import parse_tag
-    from django_components.expression import is_dynamic_expression
-    table = {}
-    for name, fam in FAMILIES.items():
-        for what in ("parse_tag", "Template"):
-            ts = []
-            for n in (n0, 2 * n0, 4 * n0):
-                s = fam(n)
-                if what == "parse_tag":
-                    def run(s=s):
-                        try:
-                            _, attrs = parse_tag(s, None)
-                            for a in attrs:
-                                a.serialize()
-                            for a in attrs:
-                                for e in a.value.entries[:1]:
-                                    if hasattr(e, "parts"):
-                                        is_dynamic_expression(e.serialize())
-                        except Exception:  # noqa
-                            pass
-                else:
-                    src = "{% component 'x' " + s + " / %}"
-
-                    def run(src=src):
-                        try:
-                            Template(src)
-                        except Exception:  # noqa
-                            pass
-                ts.append(_t(run))
-            table["%s/%s" % (name, what)] = [round(x, 5) for x in ts]
-            chk.count(("scaling", name, what), True, kind="scaling")
-            # quadratic growth: x4 length => at most x16 time; slack 3x and a 20 ms floor against timer noise
-            if ts[2] > 3 * 16 * max(ts[0], 0.002) + 0.02 or ts[1] > 3 * 4 * max(ts[0], 0.002) + 0.02:
-                chk.fail(T_TIME, "wall time of %s grows faster than quadratically on family %s" % (what, name),
-                         {"kind": "scaling", "family": name, "what": what, "n0": n0, "times_n_2n_4n": ts})
-            # absolute sanity: 4*n0 characters within 2 s
-            if ts[2] > 2.0:
-                chk.fail(T_TIME, "%s needs %.1f s for %d characters (family %s)" % (what, ts[2], 4 * n0, name),
-                         {"kind": "scaling", "family": name, "what": what, "n0": n0, "times_n_2n_4n": ts})
-    chk.extra["scaling_times_n_2n_4n"] = table
-
-
-# ---------------------------------------------------------------------------------------------
 def run_corpus_case(chk, c):
     kind = c["kind"]
     if kind == "dynamic_time":
@@ -280,6 +498,21 @@ def run_corpus_case(chk, c):
         bad = r["exc"] if r["kind"] == "err" else r["ser_exc"]
         if bad not in (None, "TemplateSyntaxError"):
             chk.fail(c["trigger"], "parse_tag / serialize raised %s" % bad, {"kind": kind, "text": c["text"], "exception": bad})
+
+
+def run_corpus_time(chk, cases):
+    """corpus cases of kind `time` (and scaling replays): in the watchdog child"""
+    if not cases:
+        return
+    res = T.run_cases([{"target": c["target"], "text": c["text"]} for c in cases], limit=WATCHDOG_S, max_hangs=3)
+    for c, r in zip(cases, res):
+        chk.count(("corpus", c["target"], c["text"]), True, kind="corpus")
+        o = r["outcome"]
+        if o in ("HANG", "HANG-HARD", "SKIPPED"):
+            chk.fail(c.get("trigger", T_HANG), "%s did not return within %.0f s on a %d-character input" % (c["target"], WATCHDOG_S, len(c["text"])),
+                     {"kind": "time", "target": c["target"], "text": c["text"], "limit_s": WATCHDOG_S})
+        elif o not in ("ok", "TemplateSyntaxError"):
+            chk.fail(time_case_trigger(c, o), "%s raised %s" % (c["target"], o), {"kind": "time", "target": c["target"], "text": c["text"], "exception": o})
 
 
 def load_corpus():
@@ -304,6 +537,26 @@ def template_sources(rng, s):
         yield "{% component 'x' %}{% fill " + s + " / %}{% endcomponent %}\n{# c #}{{ v|upper }}"
 
 
+TPL_PIECES = ["text", " ", "\n", "it's", 'say "', "{{ v }}", "{{ v|default:'x' }}", "{# c #}", "{# it's #}", "{%", "%}", "{{", "}}", "{#", "#}", "{% x",
+              "{% 'x", '{% "', "%", "{", "}", "\\", "{% verbatim %}", "{% endverbatim %}", "{% verbatim 'v' %}", "{% endverbatim 'v' %}",
+              "{% comment %}", "{% endcomment %}", "{% component 'x' / %}", "{% component \"x\" %}", "{% endcomponent %}", "{% if a %}", "{% endif %}",
+              "{% slot 'a' %}", "{% endslot %}", "{% fill \"a\" %}", "{% endfill %}", "é", "\xa0"]
+
+
+def gen_template(rng, bodies):
+    out = []
+    for _ in range(rng.randint(1, 7)):
+        k = rng.random()
+        if k < 0.45:
+            out.append(rng.choice(TPL_PIECES))
+        elif k < 0.8:
+            b = rng.choice(bodies)
+            out.append(rng.choice(["{% component 'x' " + b + " / %}", "{% " + b + " %}", "{%" + b + "%}", "{% slot " + b + " %}", "{% " + b, "{{ " + b + " }}"]))
+        else:
+            out.append("".join(rng.choice(["{", "}", "%", "#", "'", '"', "\\", " ", "a", "\n"]) for _ in range(rng.randint(1, 6))))
+    return "".join(out)
+
+
 def run(tier, seed):
     import djsetup
     djsetup.setup()
@@ -313,6 +566,13 @@ def run(tier, seed):
     chk.prove()
     thorough = tier == "thorough"
     rng = chk.rng
+    phases = {}
+    tp0 = [time.time()]
+
+    def phase(name):
+        phases[name] = round(time.time() - tp0[0], 1)
+        tp0[0] = time.time()
+    phase("prove")
     from django_components import Component, registry
 
     class X(Component):
@@ -320,10 +580,14 @@ def run(tier, seed):
     registry.register("x", X)
     try:
         # ---- 0. corpus ----
-        for c in load_corpus():
-            run_corpus_case(chk, c)
+        corpus = load_corpus()
+        for c in corpus:
+            if c["kind"] != "time":
+                run_corpus_case(chk, c)
+        run_corpus_time(chk, [c for c in corpus if c["kind"] == "time"])
+        phase("corpus")
 
-        # ---- 1. parse_tag: model == implementation, exception class, round trip ----
+        # ---- 1. parse_tag: model == implementation, exception class, round trip, loop-body executions ----
         texts, kinds, seen = [], [], set()
 
         def add(t, kind):
@@ -333,12 +597,12 @@ def run(tier, seed):
                 kinds.append(kind)
         for t in U.exhaustive(4 if thorough else 3):
             add(t, "exh")
-        n_rand = 60000 if thorough else 5000
+        n_rand = 60000 if thorough else 3000
         for _ in range(n_rand):
             add(U.random_string(rng, 5, U.ATOMS), "rand-short")
             add(U.random_string(rng, 14), "rand")
         grammar = []
-        for _ in range(40000 if thorough else 3000):
+        for _ in range(40000 if thorough else 2500):
             t = U.gen_tag(rng, canonical=rng.random() < 0.2, depth=rng.choice([1, 2, 3]))
             grammar.append(t)
             add(t, "grammar")
@@ -347,12 +611,20 @@ def run(tier, seed):
             add("a=" + "[" * d + "]" * d, "nested")
             add("{" * d + "}" * d, "nested")
             add("a=" + "[{k:" * d + "1" + "}]" * d, "nested")
-        deep = ["a=" + "[" * d + "]" * d for d in (250, 400, 600, 1500)] + ["{k:" * 700 + "1" + "}" * 700]
+            add("a=" + "{k:" * d + "1" + "}" * d, "nested")
+            add("a=" + "{**" * d + "x" + "}" * d, "nested")
+            add("a=" + "[*" * d + "x" + "]" * d, "nested")
+        for name, fam in T.FAMILIES_TAG.items():
+            for k in (3, 7):
+                add(fam(k), "family")
+        deep = ["a=" + "[" * d + "]" * d for d in (250, 400, 600, 1500)] + ["{k:" * 700 + "1" + "}" * 700, "a=" + "{k:" * 450 + "1" + "}" * 450,
+                                                                          "a=" + "{**" * 500 + "x" + "}" * 500, "a=[" + "{k:[" * 300 + "1" + "]}" * 300 + "]"]
 
         terms, cases = [], []
+        rt_terms, rt_cases = [], []
         ser_texts = []
         n_ok = n_err = 0
-        grammar_set = set(grammar)
+        rt_cap = 30000 if thorough else 4000
         for t, kind in zip(texts, kinds):
             r = impl_parse(t)
             ok = r["kind"] == "ok"
@@ -363,14 +635,20 @@ def run(tier, seed):
                       sample={"text": t, "result": "ok" if ok else r["exc"], "serialized": r.get("ser")} if (kind == "mutation" and len(t) > 25) else None)
             bad = r["exc"] if not ok else r["ser_exc"]
             if bad not in (None, "TemplateSyntaxError"):
-                chk.fail(classify_trigger(t), "parse_tag/serialize(%r) raised %s" % (t[:80], bad), {"kind": "parse_serialize", "text": t, "exception": bad})
+                chk.fail(classify_trigger(t, bad), "parse_tag/serialize(%r) raised %s" % (t[:80], bad), {"kind": "parse_serialize", "text": t, "exception": bad})
             if ok and r["ser"] is not None:
                 rt, why = roundtrip(r)
-                if t in grammar_set and not rt:
-                    chk.fail(T_ROUND, "documented-syntax tag does not survive serialise + re-parse: " + why,
+                cls = roundtrip_class(r)
+                if cls == "documented" and not rt:
+                    chk.fail(T_ROUND, "tag whose arguments are in documented form does not survive serialise + re-parse: " + why,
                              {"kind": "roundtrip", "text": t, "serialized": r["ser"]})
-                chk.dist["roundtrip-ok" if rt else "roundtrip-differs(%s)" % kind] += 1
-                if len(ser_texts) < (20000 if thorough else 2500) and r["ser"] not in seen:
+                chk.dist["roundtrip-ok(%s)" % cls if rt else "roundtrip-differs(%s)" % cls] += 1
+                if not rt and cls == "other":
+                    chk.extra.setdefault("roundtrip_differs_unclassified", []).append(t[:120])
+                if (cls == "documented" or not rt or kind == "grammar") and len(rt_terms) < rt_cap and U.bracket_depth(t) <= 60:
+                    rt_terms.append("(%s, %s)" % (cstr(t), C.cbool(rt)))
+                    rt_cases.append(t)
+                if len(ser_texts) < (20000 if thorough else 1500) and r["ser"] not in seen:
                     seen.add(r["ser"])
                     ser_texts.append(r["ser"])
             try:
@@ -378,13 +656,26 @@ def run(tier, seed):
                 cases.append(t)
             except U.Unrepresentable as e:
                 chk.disagree("implementation AST outside the model's types: %s" % e, {"kind": "parse_serialize", "text": t})
+        # "x " + every short string: the round-trip oracle on short argument lists behind a tag name (implementation only)
+        n_pref = 0
+        for t in U.exhaustive(3):
+            r = impl_parse("x " + t)
+            if r["kind"] == "ok" and r["ser"] is not None:
+                cls = roundtrip_class(r)
+                if cls == "documented":
+                    n_pref += 1
+                    rt, why = roundtrip(r)
+                    chk.count(("parse", "x " + t), True, kind="exh-tagged-documented")
+                    if not rt:
+                        chk.fail(T_ROUND, "tag whose arguments are in documented form does not survive serialise + re-parse: " + why,
+                                 {"kind": "roundtrip", "text": "x " + t, "serialized": r["ser"]})
         # canonical serialisations are inputs too (re-parse side of the round trip, inside the model)
         for t in ser_texts:
             r = impl_parse(t)
             chk.count(("parse", t), True, kind="serialized")
             bad = r["exc"] if r["kind"] == "err" else r["ser_exc"]
             if bad not in (None, "TemplateSyntaxError"):
-                chk.fail(classify_trigger(t), "parse_tag/serialize(%r) raised %s" % (t[:80], bad), {"kind": "parse_serialize", "text": t, "exception": bad})
+                chk.fail(classify_trigger(t, bad), "parse_tag/serialize(%r) raised %s" % (t[:80], bad), {"kind": "parse_serialize", "text": t, "exception": bad})
             terms.append(parse_case_term(r))
             cases.append(t)
         # far beyond MAX_NESTING_DEPTH (would be beyond the interpreter's recursion limit without it)
@@ -393,51 +684,115 @@ def run(tier, seed):
             chk.count(("parse", t), True, kind="deep")
             bad = r["exc"] if r["kind"] == "err" else r["ser_exc"]
             if bad not in (None, "TemplateSyntaxError"):
-                chk.fail(classify_trigger(t), "parse_tag/serialize on %d nested brackets raised %s" % (U.bracket_depth(t), bad),
+                chk.fail(classify_trigger(t, bad), "parse_tag/serialize on %d nested brackets raised %s" % (U.bracket_depth(t), bad),
                          {"kind": "parse_serialize", "text": t, "exception": bad})
             if r["kind"] == "ok" and r["ser"] is None:
                 pass            # reported above; the term would not be comparable
             else:
                 terms.append(parse_case_term(r))
                 cases.append(t)
+        phase("parse-impl")
         bad = C.coq_eval_cases("C12", "parse", U.IMPORTS, "str * outcome", "check_parse", terms, shard=1500, timeout=1200)
         for i in bad[:20]:
             chk.disagree("parse_tag model != implementation (normalized / AST / serialisation / exception class)",
                          {"kind": "parse_serialize", "text": cases[i]})
         chk.extra["parse_outcomes"] = {"ok": n_ok, "TemplateSyntaxError": n_err}
+        phase("parse-coq")
+        # round trip inside the model == round trip on the implementation (documented-form inputs, grammar tags, and every
+        # accepted input that does not round-trip)
+        bad = C.coq_eval_cases("C12", "rt", U.IMPORTS, "str * bool", "check_roundtrip", rt_terms, shard=800, timeout=1200)
+        for i in bad[:20]:
+            chk.disagree("serialise + re-parse in the model != on the implementation", {"kind": "roundtrip", "text": rt_cases[i]})
+        for t in rt_cases:
+            chk.count(("roundtrip", t), True, kind="roundtrip-model")
+        phase("roundtrip-coq")
 
-        # ---- 2. Template(source): exception class ----
+        # loop-body executions of the three scanner loops: model counters == implementation, and the linear bound of
+        # `parse_tag_iterations_linear` directly on the implementation
+        pool = [t for t, k in zip(texts, kinds) if k in ("grammar", "mutation", "rand", "family", "nested")]
+        rng.shuffle(pool)
+        step_texts = [t for t in U.exhaustive(2)] + pool[: (12000 if thorough else 1800)]
+        for name, fam in T.FAMILIES_TAG.items():
+            step_texts.append(fam(25))
+        st_terms, st_cases = [], []
+        max_ratio = 0.0
+        for t in step_texts:
+            cls, (na, ns, np_) = impl_steps(t)
+            chk.count(("steps", t), na + ns + np_ >= 4, kind="steps")
+            if na + ns + np_ > 5 * len(t) + 4:
+                chk.fail(T_STEPS, "parse_tag(%r) executed %d+%d+%d loop bodies on %d characters (> 5*len+4)" % (t[:80], na, ns, np_, len(t)),
+                         {"kind": "steps", "text": t, "iterations": [na, ns, np_]})
+            if t:
+                max_ratio = max(max_ratio, (na + ns + np_) / len(t))
+            st_terms.append("(%s, (%s, %s, %s))" % (cstr(t), cN(na), cN(ns), cN(np_)))
+            st_cases.append(t)
+        bad = C.coq_eval_cases("C12", "steps", IMPORTS_X, "str * (N * N * N)", "check_steps", st_terms, shard=800, timeout=1200)
+        for i in bad[:20]:
+            chk.disagree("loop-body executions (attributes, stack, parts) of parse_tag: model counters != implementation",
+                         {"kind": "steps", "text": st_cases[i]})
+        chk.extra["max_loop_bodies_per_character"] = round(max_ratio, 3)
+        phase("steps")
+
+        # ---- 2. Template(source) / parse_template: exception class; whole-template outcome == C09's model ----
         n_tpl = 0
         pool = [t for t, k in zip(texts, kinds) if k in ("grammar", "mutation", "rand")]
         rng.shuffle(pool)
-        for t in pool[: (30000 if thorough else 2500)] + deep[:2]:
+        for t in pool[: (30000 if thorough else 2000)] + deep[:2]:
             for src in template_sources(rng, t):
                 cls = template_class(src)
                 n_tpl += 1
                 chk.count(("tpl", src), "'" in src or '"' in src, kind="template")
                 if cls not in ("ok", "TemplateSyntaxError"):
                     chk.fail(template_trigger(src, cls), "Template(source) raised %s" % cls, {"kind": "template", "source": src, "exception": cls})
+        import django.template.base as dbase
+        dotall = bool(dbase.tag_re.flags & re.DOTALL)
+        srcs = set()
+        for L in range(0, 4 if thorough else 3):
+            for seq in itertools.product(["{%", "%}", "'", '"', "\\", " x ", "{{", "}}", "\n"], repeat=L):
+                srcs.add("".join(seq))
+        bodies = pool[:3000] or ["a"]
+        for _ in range(20000 if thorough else 2200):
+            srcs.add(gen_template(rng, bodies))
+        tt_terms, tt_cases = [], []
+        for src in sorted(srcs):
+            term, cls = impl_parse_template(src)
+            cls2 = template_class(src)
+            chk.count(("tpl-any", src), src.count("{%") >= 2 and ("'" in src or '"' in src), kind="template-any-" + ("ok" if cls == "ok" else "err"))
+            for what, c_ in (("parse_template", cls), ("Template", cls2)):
+                if c_ not in ("ok", "TemplateSyntaxError"):
+                    chk.fail(template_trigger(src, c_), "%s(source) raised %s" % (what, c_), {"kind": "template", "source": src, "exception": c_})
+            if term is not None and len(src) <= 400:
+                tt_terms.append("(%s, %s, %s)" % (C.cbool(dotall), cstr(src), term))
+                tt_cases.append(src)
+            elif cls == "TemplateSyntaxError" and term is None:
+                chk.disagree("parse_template raised a TemplateSyntaxError the model does not have", {"kind": "template", "source": src})
+        phase("template-impl")
+        bad = C.coq_eval_cases("C12", "tpl", IMPORTS_X, "bool * str * tobs", "check_template", tt_terms, shard=400, timeout=1200)
+        for i in bad[:20]:
+            chk.disagree("parse_template: token count / end of last token / error of the Lexer model != implementation",
+                         {"kind": "template", "source": tt_cases[i]})
+        phase("template-coq")
 
         # ---- 3. _detailed_tag_parser: model == implementation ----
         datoms = ["'", '"', "%", "}", "\\", " ", "a", "\n", "{", "\xa0"]
         terms, cases = [], []
         dseen = set()
-        import itertools
         for L in range(0, (5 if thorough else 4) + 1):
             for seq in itertools.product(datoms[:8] if L >= 4 else datoms, repeat=L):
                 dseen.add("{%" + "".join(seq))
-        for _ in range(20000 if thorough else 2500):
-            dseen.add("{%" + "".join(rng.choice(datoms + ["%}", "\\'", '\\"', "x y", "\x0b", " "]) for _ in range(rng.randint(3, 16))))
+        for _ in range(20000 if thorough else 2000):
+            dseen.add("{%" + "".join(rng.choice(datoms + ["%}", "\\'", '\\"', "x y", "\x0b", " "]) for _ in range(rng.randint(3, 16))))
         for t in sorted(dseen):
             term, k = impl_detailed(t)
             chk.count(("detailed", t), ("'" in t or '"' in t) and "%}" in t, kind="detailed-" + ("ok" if k == "ok" else "err"))
             if k not in ("ok", "TemplateSyntaxError"):
-                chk.fail(T_CLASS, "_detailed_tag_parser(%r) raised %s" % (t, k), {"kind": "detailed", "text": t, "exception": k})
+                chk.fail(classify_trigger(t, k), "_detailed_tag_parser(%r) raised %s" % (t, k), {"kind": "detailed", "text": t, "exception": k})
             terms.append(term)
             cases.append(t)
-        bad = C.coq_eval_cases("C12", "detailed", U.IMPORTS, "str * doutcome", "check_detailed", terms, shard=3000)
+        bad = C.coq_eval_cases("C12", "detailed", U.IMPORTS, "str * doutcome", "check_detailed", terms, shard=2000)
         for i in bad[:20]:
             chk.disagree("_detailed_tag_parser model != implementation", {"kind": "detailed", "text": cases[i]})
+        phase("detailed")
 
         # ---- 4. is_dynamic_expression: hand matcher == re ----
         from django_components.expression import is_dynamic_expression
@@ -446,7 +801,7 @@ def run(tier, seed):
         for L in range(0, (5 if thorough else 4) + 1):
             for seq in itertools.product(yatoms[:11] if L >= 4 else yatoms, repeat=L):
                 ys.add("".join(seq))
-        for _ in range(20000 if thorough else 3000):
+        for _ in range(20000 if thorough else 2000):
             q = rng.choice("\"'")
             body = "".join(rng.choice(yatoms) for _ in range(rng.randint(1, 8)))
             ys.add(rng.choice([q + body + q, q + body + q, q + body + rng.choice(yatoms), body]))
@@ -456,34 +811,54 @@ def run(tier, seed):
             chk.count(("dyn", y), v, kind="dynamic-" + str(v).lower())
             terms.append("(%s, %s)" % (cstr(y), C.cbool(v)))
             cases.append(y)
-        bad = C.coq_eval_cases("C12", "dyn", U.IMPORTS, "str * bool", "check_dynamic", terms, shard=4000)
+        bad = C.coq_eval_cases("C12", "dyn", U.IMPORTS, "str * bool", "check_dynamic", terms, shard=2500)
         for i in bad[:20]:
             chk.disagree("is_dynamic_expression hand matcher != DYNAMIC_EXPR_RE", {"kind": "dynamic", "value": cases[i]})
+        phase("dynamic")
 
-        # ---- 5. wall-time scaling ----
-        scaling(chk, 4000 if thorough else 2000)
+        # ---- 5. time: hangs on small adversarial inputs, growth at x1 / x2 / x4 ----
+        hang_sweep(chk, thorough)
+        phase("hang-sweep")
+        scaling(chk, thorough)
+        phase("scaling")
+        # block tags nested k deep: Django's recursive-descent Parser (outside the anchored files) - observed, not judged
+        obs = {}
+        for name, o, c in (("if", "{% if a %}", "{% endif %}"), ("component", "{% component 'x' %}", "{% endcomponent %}")):
+            for k in (50, 150, 400):
+                obs["%s x%d" % (name, k)] = template_class(o * k + c * k)
+        chk.extra["observed_block_nesting (Django Parser recursion, not judged)"] = obs
     finally:
         registry.unregister("x")
+    chk.extra["phase_wall_s"] = phases
     chk.assumptions = [
-        "cost of one scanner iteration in CPython (str +=, slicing, tuple scans) is bounded by O(len(text)) - supported by the scaling test, not proved",
+        "cost of one execution of a scanner-loop body in CPython (str +=, slicing, the helper scans take_until / take_while over the rest of the text) "
+        "is bounded by c*(len(text)+1) - supported by the scaling test, not proved; the NUMBER of loop-body executions is proved (<= 5*len+4) and compared",
         "CPython recursion limit 1000 and two frames per serialize level, i.e. >= 101 levels are available wherever a tag is parsed (MAX_NESTING_DEPTH = %d)" % DEPTH_CLASS,
-        "Django's Lexer/Parser and Python's re engine are outside the model; their exception classes are observed, not proved",
+        "Django's Lexer/Parser and Python's re engine are outside the TagParse model (the Lexer model of C09 covers parse_template's token stream); their exception classes and "
+        "their time are observed, not proved; block tags nested hundreds deep overflow Django's recursive Parser (also stock {% if %}) - reported under observed_block_nesting, not judged",
+        "a %.0f s wall-clock watchdog on a child process stands for 'hang'; memory is the growth of the child's peak RSS (limit 256 MB, RLIMIT_AS 3 GB)" % WATCHDOG_S,
     ]
     return chk.finish(
         rule="parse_tag: every string of <= %d atoms over the 18-atom syntax alphabet (quotes, brackets, braces, : , | = * ... _( ) backslash, space, a, /) "
-             "exhaustively, seeded random strings up to 14 atoms over 37 atoms, tags generated from the documented grammar (20%% canonical layout) and 1-3 "
-             "character-level mutations of each, the canonical serialisations of all of those, nested literals around MAX_NESTING_DEPTH (49..150) and far beyond (250..1500); "
-             "Template(source) for each sampled tag body in 2 of 6 tag shapes; _detailed_tag_parser on all strings <= %d atoms over its alphabet + random; "
-             "is_dynamic_expression on all strings <= %d atoms + random; wall time at n, 2n, 4n on %d adversarial families. Non-trivial = contains a "
-             "syntax-relevant symbol and >= 2 characters (parse), contains a quote (template / detailed, with a closing delimiter), matcher answers true (dynamic). "
-             "Distinct = distinct input string."
-             % (4 if thorough else 3, 5 if thorough else 4, 5 if thorough else 4, len(FAMILIES)),
-        explanation="8 theorems of Props/C12.v re-checked by coqc (totality with linear fuel, exception class, per-iteration progress, normalized = input, "
-                    "nesting depth of every parsed value <= MAX_NESTING_DEPTH+1 hence no RecursionError in serialize, re-scanner totality); the model is evaluated by vm_compute inside Coq on every generated "
-                    "case and compared with parse_tag / serialize / _detailed_tag_parser / is_dynamic_expression of the working tree; exception class, "
-                    "round trip and time scaling are checked directly on the implementation.",
-        extra_trusted=["modelled, not verified: Python str/list primitives used by the scanner; Django Lexer/Parser, smart_split, re (observed through "
-                       "Template(source) only); the regex of take_until_any and DYNAMIC_EXPR_RE are hand matchers anchored to the source pattern strings"])
+             "exhaustively (and each behind a tag name for the round-trip oracle), seeded random strings up to 14 atoms over 37 atoms, tags generated from the documented "
+             "grammar (20%% canonical layout) and 1-3 character-level mutations of each, the canonical serialisations of all of those, nested literals of all six "
+             "list/dict/spread shapes around MAX_NESTING_DEPTH (49..150) and far beyond (250..1500); loop-body executions on a sample of those and on every adversarial family; "
+             "Template(source) for each sampled tag body in 2 of 6 tag shapes; arbitrary templates (all strings <= %d pieces of {%% %%} ' \" \\ {{ }} newline + random "
+             "concatenations of text, variables, comments, unterminated openers, verbatim, quoted and mutated tags) through parse_template and Template; _detailed_tag_parser on all "
+             "strings <= %d atoms over its alphabet + random; is_dynamic_expression on all strings <= %d atoms + random; in a watchdog child process: %d tag and %d template "
+             "families x k in %s (unterminated strings of both quote kinds with k backslashes / escaped quotes, nesting, runs of every operator, unterminated {%% {{ {#) "
+             "+ random pumped strings, then wall time at n, 2n, 4n per family. Non-trivial = contains a syntax-relevant symbol and >= 2 characters (parse), contains a quote "
+             "(template / detailed, with a closing delimiter), >= 2 block openers and a quote (arbitrary templates), matcher answers true (dynamic), >= 4 loop bodies (steps), "
+             "a backslash or k >= 12 (hang sweep). Distinct = distinct input string."
+             % (4 if thorough else 3, 3 if thorough else 2, 5 if thorough else 4, 5 if thorough else 4, len(T.FAMILIES_TAG), len(T.FAMILIES_TPL), KS),
+        explanation="theorems of Props/C12.v re-checked by coqc (totality with linear fuel, exception class, per-iteration progress, normalized = input, nesting depth <= "
+                    "MAX_NESTING_DEPTH+1 hence no RecursionError in serialize, re-scanner totality, loop-body executions <= 5*len+4, serialise/re-parse round trip for the documented "
+                    "grammar, whole-template lexing total); the model is evaluated by vm_compute inside Coq on every generated case and compared with parse_tag / serialize / the "
+                    "round trip / the loop-body counts / parse_template / _detailed_tag_parser / is_dynamic_expression of the working tree; exception class, round trip, hangs, "
+                    "memory and time scaling are checked directly on the implementation.",
+        extra_trusted=["modelled, not verified: Python str/list primitives used by the scanner; Django Lexer/Parser, smart_split, re (the Lexer model of C09 is compared on outcome "
+                       "class, token count and end position; the rest is observed through Template(source) only); the regex of take_until_any and DYNAMIC_EXPR_RE are hand matchers "
+                       "anchored to the source pattern strings"])
 
 
 def replay(path):
@@ -500,11 +875,21 @@ def replay(path):
     kind = case.get("kind")
     if kind == "template":
         print("Template(source) ->", template_class(case["source"]))
+        print("parse_template(source) ->", impl_parse_template(case["source"]))
     elif kind in ("parse_serialize", "roundtrip"):
         res = impl_parse(case["text"])
         print("parse_tag ->", res["kind"], res.get("exc"), "serialize ->", res.get("ser_exc") or (res.get("ser") or "")[:300])
         if res["kind"] == "ok" and res["ser"] is not None:
-            print("round trip ->", roundtrip(res))
+            print("round trip ->", roundtrip(res), "class:", roundtrip_class(res))
+    elif kind == "steps":
+        print("loop bodies (attributes, stack, parts) ->", impl_steps(case["text"]), "bound 5*len+4 =", 5 * len(case["text"]) + 4)
+    elif kind == "time":
+        print(T.run_cases([{"target": case["target"], "text": case["text"]}], limit=case.get("limit_s", WATCHDOG_S)))
+    elif kind == "scaling":
+        fam = dict(T.FAMILIES_TAG, **T.FAMILIES_TPL)[case["family"]]
+        f = fam if case["target"] != "template" or case["family"] in T.FAMILIES_TPL else (lambda n: "{% component 'x' " + fam(n) + " / %}")
+        cs = [{"target": case["target"], "text": _sized(f, case["n0"] * m), "reps": 3} for m in (1, 2, 4)]
+        print([(len(c["text"]), x["outcome"], x["secs"]) for c, x in zip(cs, T.run_cases(cs, limit=20.0))])
     elif kind == "detailed":
         print(impl_detailed(case["text"]))
     elif kind == "dynamic_time":
